@@ -830,7 +830,7 @@ async def drive_airplay_stream(W, cvar, resp, pt, init="same", twice=False):
     from pyatv.support.state_producer import StateProducer
 
     first = cvar if init == "same" else init
-    service = MutableService("id", Protocol.AirPlay, 7000, {"features": "0x0,0x10000"}, credentials=W.creds_str(first))
+    service = MutableService("id", Protocol.AirPlay, 7000, {"features": "0x00000000,0x10000"}, credentials=W.creds_str(first))
     config = conf.AppleTV("127.0.0.1", "verif")
     config.add_service(service)
     core = Core(asyncio.get_event_loop(), config, service, Settings(), StateProducer(), types.SimpleNamespace(session=None),
@@ -1278,7 +1278,7 @@ def coq_files(items, per=150):
 
 
 # --------------------------------------------------------------------------- which procedure runs (the glue)
-FEATURE_VALUES = [None, "0x0", "0x0,0x800", "0x0,0x10000", "0x0,0x10800", "0x0,0x4000", "0xFFFFFFFF,0xFFFFFFFF",
+FEATURE_VALUES = [None, "0x0", "0x00000000,0x800", "0x00000000,0x10000", "0x00000000,0x10800", "0x00000000,0x4000", "0x0,0x800", "0xFFFFFFFF,0xFFFFFFFF",
                   "0x4A7FCA00,0xBC354BD0", "0x5A7FFFF7,0x1E", "0x1", "zz", "", "0x1,0x2,0x3", "4A7FCA00"]
 MODEL_VALUES = [None, "AudioAccessory5,1", "AudioAccessory1,1", "AudioAccessory", "AppleTV6,2", "AppleTV3,2", "", "audioaccessory5,1",
                 "XAudioAccessory5,1", "AirPort10,115", "\u00c4udioAccessory"]
@@ -1475,9 +1475,9 @@ async def drive_stream_entry(W, case, resp, pt):
     settings = Settings()
     if st["select"] == "setting":
         settings.protocols.raop.protocol_version = AirPlayVersion.V1 if st["version"] == "v1" else AirPlayVersion.V2
-        props = {"features": "0x0,0x10000" if st["version"] == "v1" else "0x0"}      # the setting wins over the announcement
+        props = {"features": "0x00000000,0x10000" if st["version"] == "v1" else "0x0"}      # the setting wins over the announcement
     else:
-        props = {"features": "0x0,0x10000"} if st["version"] == "v2" else ({"features": "0x4A7FCA00"} if W.wseed % 2 else {})
+        props = {"features": "0x00000000,0x10000"} if st["version"] == "v2" else ({"features": "0x4A7FCA00"} if W.wseed % 2 else {})
     service = MutableService("id", Protocol.AirPlay, 7000, props, credentials=stored_string(W, st["stored"]))
     config = conf.AppleTV("127.0.0.1", "verif")
     config.add_service(service)
@@ -1609,7 +1609,7 @@ def coq_stream_files(items, per=100):
             for b in case_bytes(W, case, res):
                 nm.see(b)
         terms = [coq_stream_case(W, case, res, nm) for W, case, res in chunk]
-        txt = (COQ_PRELUDE + "%sDefinition cases : list stcase := [\n%s\n].\nEval vm_compute in (bad_indices (check_stream v1_mapped cfg) cases).\n"
+        txt = (COQ_PRELUDE + "%sDefinition cases : list stcase := [\n%s\n].\nEval vm_compute in (bad_indices (check_stream v1_mapped v1_keys cfg) cases).\n"
                % (nm.preamble(), ";\n".join(terms)))
         files.append(("stream_%03d" % (i // per), txt, chunk))
     return files
@@ -1846,7 +1846,11 @@ def except_clauses(fn, fallback_param=None):
     tries = [n for n in ast.walk(f) if isinstance(n, ast.Try)]
     if len(tries) != 1:
         raise gs.Unsupported("%s: expected exactly one try statement, found %d" % (fn.__name__, len(tries)))
-    t = tries[0]
+    return try_clauses(tries[0], fn.__name__, fallback_param), tries[0]
+
+
+def try_clauses(t, where, fallback_param=None):
+    fn = types.SimpleNamespace(__name__=where)
     if t.orelse or t.finalbody:
         raise gs.Unsupported("%s: try has else/finally" % fn.__name__)
     out = []
@@ -1869,7 +1873,7 @@ def except_clauses(fn, fallback_param=None):
         else:
             raise gs.Unsupported("%s: handler raises %s" % (fn.__name__, gs.src(r.exc)))
         out.append((names, act))
-    return out, t
+    return out
 
 
 def the_call(fn, callee):
@@ -1905,6 +1909,40 @@ def module_facts(module, cls):
     else:
         raise gs.Unsupported("%s.verify_credentials: %d calls of _get_pairing_data" % (cls.__name__, len(gp)))
     return chk_error, chk_m4
+
+
+def v1_entry_fact():
+    """How AirPlayV1.setup / play_url verify the device (looking one level into self._helpers):
+    through verify_connection (exceptions mapped, keys installed), by a bare
+    pair_verify(..).verify_credentials(), or by that call inside a try whose except-clauses are
+    those of verify_connection (exceptions mapped, no keys).  -> (maps, keys)"""
+    from pyatv.protocols.airplay import auth as ap_auth
+    from pyatv.protocols.raop.protocols import airplayv1
+    cls = airplayv1.AirPlayV1
+    reference = try_clauses([n for n in ast.walk(fn_ast(ap_auth.verify_connection)) if isinstance(n, ast.Try)][0], "verify_connection")
+    facts = []
+    for name in ("setup", "play_url"):
+        nodes = list(ast.walk(fn_ast(getattr(cls, name))))
+        for n in list(nodes):
+            if isinstance(n, ast.Call) and gs.src(n.func).startswith("self._") and hasattr(cls, gs.src(n.func)[5:]):
+                nodes += list(ast.walk(fn_ast(getattr(cls, gs.src(n.func)[5:]))))
+        calls = {gs.src(n.func).split(".")[-1] for n in nodes if isinstance(n, ast.Call)}
+        if "verify_connection" in calls and "pair_verify" not in calls:
+            facts.append((True, True))
+        elif "pair_verify" in calls and "verify_credentials" in calls and "verify_connection" not in calls:
+            tries = [t for t in nodes if isinstance(t, ast.Try) and any(
+                isinstance(c, ast.Call) and gs.src(c.func).endswith(".verify_credentials") for b in t.body for c in ast.walk(b))]
+            if not tries:
+                facts.append((False, False))
+            elif len(tries) == 1 and try_clauses(tries[0], "AirPlayV1." + name) == reference:
+                facts.append((True, False))
+            else:
+                raise gs.Unsupported("AirPlayV1.%s: verify_credentials() is wrapped in a try that is not the one of verify_connection" % name)
+        else:
+            raise gs.Unsupported("AirPlayV1.%s: cannot tell how the device is verified (calls: %s)" % (name, sorted(calls & {"verify_connection", "pair_verify", "verify_credentials"})))
+    if facts[0] != facts[1]:
+        raise gs.Unsupported("AirPlayV1.setup and play_url verify the device in different ways")
+    return facts[0]
 
 
 def translate_all():
@@ -1970,7 +2008,7 @@ def translate_all():
     from pyatv.protocols.mrp import auth as mrp_auth
     facts = {"MRP": module_facts(mrp_auth, MrpPairVerifyProcedure), "Companion": module_facts(comp_auth, CompanionPairVerifyProcedure),
              "AirPlay": module_facts(ap_hap, AirPlayHapPairVerifyProcedure)}
-    return sk, {"error_handler": eh, "verify_connection": vc, "module_facts": facts}
+    return sk, {"error_handler": eh, "verify_connection": vc, "module_facts": facts, "v1_mapped": v1_entry_fact()}
 
 
 def effects_in(cmd):
@@ -1999,6 +2037,9 @@ def gen(ctx):
     for name, (cmd, labels) in sk.items():
         lines.append("Definition sk_%s : cmd := %s." % (name, gs.to_coq(cmd)))
     facts = clauses.pop("module_facts")
+    v1m = clauses.pop("v1_mapped")
+    lines.append("Definition v1_mapped : bool := %s." % common.cbool(v1m[0]))
+    lines.append("Definition v1_keys : bool := %s." % common.cbool(v1m[1]))
     lines.append("Definition cfg (p : proto) : pcfg := match p with %s end." % " ".join(
         "| %s => {| chk_error := %s; chk_m4 := %s |}" % (p, common.cbool(f[0]), common.cbool(f[1])) for p, f in facts.items()))
     for name, cl in clauses.items():
@@ -2010,6 +2051,7 @@ def gen(ctx):
         with open(path, "w") as f:
             f.write(txt)
     clauses["module_facts"] = {p: {"chk_error": f[0], "chk_m4": f[1]} for p, f in facts.items()}
+    clauses["airplay_v1_entry_points"] = {"exceptions_mapped": v1m[0], "keys_installed": v1m[1]}
     return sk, clauses
 
 
@@ -2072,6 +2114,7 @@ def summary(case, res):
         "observed": [{"proto": o["proto"], "verify_credentials": o["raw"], "raised_to_caller": o["surfaced_repr"] or None,
                       "keys_installed": o["keys"], "third_message_sent": o["m3"] is not None} for o in res.get("obs", [])],
         "verify1_direct": None if not res.get("v1") else res["v1"]["raw"],
+        "stream": None if not case.get("stream") else dict(case["stream"], requests=[list(x) for x in res["obs"][0].get("log", [])][:12]),
         "announced": None if not case.get("announce") else {
             "stored_credentials": case["announce"]["stored"], "properties": case["announce"]["props"],
             "extract_credentials": None if not res.get("selection") else (
@@ -2084,6 +2127,17 @@ def summary(case, res):
 def judge_and_record(ctx, case, res, coq_items):
     if res.get("harness_error"):
         ctx.tie_broken("harness:" + case["family"], json.dumps({"case": case, "error": res["harness_error"]}, default=repr))
+        return
+    if case.get("stream"):
+        o, j = res["obs"][0], res["judge"]
+        ctx.case((case["family"], json.dumps(case["spec"], sort_keys=True)), nontrivial=case["stream"]["stored"] in ("hap", "legacy"),
+                 sample=summary(case, res) if ctx.rng.random() < 0.01 else None)
+        ctx.count("family:stream")
+        ctx.count("impl:%s:%s" % (o["proto"], "used-accessory" if o["used"] else (o["surfaced"] or "returned")))
+        for key, what in stream_errors(case, res):
+            ctx.violation(key, what, {"case": case, "summary": summary(case, res)})
+        if j["tables"] is not None and coq_items is not None:
+            coq_items.append(("stream", world_of(case), case, res))
         return
     if case.get("announce"):
         W = world_of(case)
@@ -2178,7 +2232,11 @@ def run(ctx):
     import time
     t_build = time.time() - ctx.t0
     # 1. corpus (pre-fix witnesses and past disagreements) - all protocols incl. the remote-control set-up
+    deferred = []
     for case, protos in load_corpus_cases():
+        if case.get("stream"):
+            deferred.append(case)       # judged with the other stream entry cases (2d)
+            continue
         res = eval_one((case, tuple(protos)))
         judge_and_record(ctx, case, res, coq_items)
         ctx.count("corpus")
@@ -2225,11 +2283,20 @@ def run(ctx):
         hcases = gen_history(ctx, Wh)
         for case, res in zip(hcases, eval_many(hcases, ())):
             judge_and_record(ctx, case, res, coq_items)
+    # 2d. the stream entry points per protocol version x stored credential kind x who answers
+    scases = deferred + gen_stream(ctx, worlds[0], full=ctx.thorough)
+    sres = eval_many(scases, ())
+    order = sorted(range(len(scases)), key=lambda i: 0 if not sres[i].get("harness_error") and sres[i]["judge"] is not None and any(
+        k.endswith("forged-reply-accepted") for k, _ in stream_errors(scases[i], sres[i])) else 1)
+    for i in order:
+        judge_and_record(ctx, scases[i], sres[i], coq_items)
     # 3. model vs implementation, evaluated inside Coq
     t_impl = time.time() - ctx.t0 - t_build
+    stream_items = [x[1:] for x in coq_items if x[0] == "stream"]
+    coq_items = [x for x in coq_items if x[0] != "stream"]
     sel_items = [x[1:] for x in coq_items if x[0] == "sel"]
     coq_items = [x for x in coq_items if x[0] != "sel"]
-    files = coq_files(coq_items, per=100) + coq_sel_files(sel_items)
+    files = coq_files(coq_items, per=100) + coq_sel_files(sel_items) + coq_stream_files(stream_items)
     res = common.coq_run_many([(n, t) for n, t, _ in files], ctx.pid, par=16)
     ctx.extra["phase_seconds"] = {"build": round(t_build, 1), "implementation_runs": round(t_impl, 1),
                                   "coq_cases": round(time.time() - ctx.t0 - t_build - t_impl, 1),
@@ -2247,7 +2314,7 @@ def run(ctx):
             if nbad <= 5:
                 W, case, r = chunk[b][-3:]
                 ctx.tie_broken("correspondence:model-differs-from-implementation", json.dumps({"case": case, "summary": summary(case, r)}, default=repr))
-    ctx.traces = sum(len(r["obs"]) + (1 if r["v1"] else 0) for _, _, r in coq_items) + len(sel_items)
+    ctx.traces = sum(len(r["obs"]) + (1 if r["v1"] else 0) for _, _, r in coq_items) + len(sel_items) + len(stream_items)
     ctx.extra["coq_case_files"] = len(files)
     ctx.rule = ("per world (fresh long-term and ephemeral keys from the seed; identifier lengths 17/36/1): the genuine reply; every single-bit flip "
                 "of session public key, encrypted data, identifier and signature (first world: all bits; others: a stride plus first/last byte; thorough: all "
@@ -2260,7 +2327,9 @@ def run(ctx):
                 "what extract_credentials/pair_verify select, and with stored HAP credentials connecting through verify_connection(extract_credentials(..)) "
                 "and airplay.setup() against an impostor (no long-term key; also plays transient pairing along) and the genuine accessory; history: credentials stored at "
                 "construction x credentials stored at connect (A, new key, re-paired as B, none) x who answers, for MrpProtocol, CompanionProtocol and an "
-                "AirPlayStream object (also as its second connect) - judged against what is stored when the object connects.  Each case runs MrpProtocol.start, CompanionProtocol.start, verify_connection and (where both fields exist) "
+                "AirPlayStream object (also as its second connect) - judged against what is stored when the object connects; the stream entry points AirPlayV1/AirPlayV2 "
+                "setup/play_url (version chosen by setting and by announcement) x stored credential kind x genuine / impostor / damaged replies, with the list of "
+                "requests sent on the connection.  Each case runs MrpProtocol.start, CompanionProtocol.start, verify_connection and (where both fields exist) "
                 "SRPAuthHandler.verify1; non-trivial = the pairing data carried both fields; distinct by (recipe, credentials variant, faults, id length)")
     ctx.trusted += [
         "hand-written model coq/C06/Model.v (verify1, the three verify_credentials, error_handler, verify_connection mapping) tied by the differential run of this file, evaluated in Coq by vm_compute with the oracles instantiated by tables computed independently with the `cryptography` package",
@@ -2289,7 +2358,9 @@ def replay(ctx, path):
     if res.get("harness_error"):
         print("harness error:", res["harness_error"])
         return 1
-    errs = oracle(case, res) if res.get("judge") is not None else []
+    errs = oracle(case, res) if res.get("judge") is not None and not case.get("stream") else []
+    if case.get("stream"):
+        errs += stream_errors(case, res)
     if case.get("announce"):
         errs += selection_errors(world_of(case), case, res)
     print(json.dumps(summary(case, res), indent=1))
